@@ -100,6 +100,8 @@ def gen_case(gen):
         lkind = kind if rng.random() < 0.8 else rng.choice(G.KINDS)
         if i == 0 or rng.random() < 0.65:
             leaf = gen.poly(shape=shape, kind=lkind, maxexp=rng.choice([2, 3, 5]))
+            if rng.random() < 0.1:
+                G.permute_names(leaf, rng)  # names stored in another than index order
             if rng.random() < 0.12:
                 # narrower coefficient types: a different code path of the native layer
                 leaf["dtype"] = {"int": rng.choice(["int32", "int16"]), "float": "float32",
